@@ -338,6 +338,10 @@ def run_item(ctx, item):
         tb = LF.tversky_index(b1, b2, reduction="none")
         close("binary_tversky_equals_dice", tb, LF.dice_score(b1, b2, reduction="none"), "tversky/dice")
         close("tversky_label_target_equals_channel_target", LF.tversky_index(b1, b2[:, 0], reduction="none"), tb, "tversky/target_form")
+        # binary problem in mixed channel forms: a one-channel (foreground) operand against the two-channel one-hot form of the other
+        oh1, oh2 = torch.cat([1 - b1, b1], 1), torch.cat([1 - b2, b2], 1)
+        close("tversky_foreground_prediction_vs_one_hot_target", LF.tversky_index(b1, oh2, reduction="none"), tb, "tversky/target_form/one_hot_target")
+        close("tversky_two_channel_prediction_vs_foreground_target", LF.tversky_index(oh1, b2, reduction="none"), tb, "tversky/target_form/one_hot_prediction")
     with ctx.guard("tversky_loss", key="exc/tversky_loss", **info):
         b1, b2 = seg[:, :1].contiguous(), seg2[:, :1].contiguous()
         tb = LF.tversky_index(b1, b2, reduction="none")
